@@ -9,5 +9,5 @@ for m in /tmp/wt/${pid}r${r}/MUTANTS/m*; do
   p=$(grep -m1 '^package ' $m/demo_test.go | awk '{print $2}' | sed 's/_test$//'); case "$p" in genql) pkg=.;; *) pkg=$p;; esac
   what=$(grep -v '^\s*$' $m/README.md | grep -v '^#' | head -2 | tr '\n' ' ' | cut -c1-300)
   if echo "$blk" | grep -q "^CAUGHT by $pid"; then c=$(echo "$blk" | awk '/^CAUGHT/{f=1;next} /^-- all/{f=0} f' | awk '{print $2}' | sort -u | tr '\n' ' '); else c="MISSED when it arrived"; fi
-  python3 /verif/tools/store_seed.py $pid $m $pid-r$r-$k $pkg "$k - $what" "see README.md (round $r: representation, lifetime/aliasing, order of two kept steps, library substitution, error plumbing, concurrency mechanics, boundaries)" "$c"
+  python3 /verif/tools/store_seed.py $pid $m $pid-r$r-$k $pkg "$k - $what" "see README.md (round $r)" "$c"
 done
